@@ -99,8 +99,9 @@ CLAUSES = [
 ]
 
 
-def top_clauses(sql: str, ident_quote='"', backslash=False):
-    """[(clause name, token index of its first word, token index after its keyword)] at depth 0."""
+def top_clauses(sql: str, ident_quote='"', backslash=False, calls_are_terms=False):
+    """[(clause name, token index of its first word, token index after its keyword)] at depth 0.
+    calls_are_terms: a word glued to an opening bracket (INSERT(...), VALUES(col)) is a function call, not a keyword."""
     toks = tokens(sql, ident_quote, backslash)
     res = []
     i = 0
@@ -108,6 +109,9 @@ def top_clauses(sql: str, ident_quote='"', backslash=False):
         k, t, d, _, _ = toks[i]
         if k == "word" and d == 0:
             hit = None
+            if calls_are_terms and i + 1 < len(toks) and toks[i + 1][0] == "lp" and toks[i + 1][3] == toks[i][4]:
+                i += 1
+                continue
             for phrase, name in CLAUSES:
                 ws = phrase.split()
                 if i + len(ws) <= len(toks) and all(
